@@ -37,6 +37,18 @@ def parseMsgs : List String → Option (List (Nat × List UInt8))
     pure ((ty, p) :: r)
   | [_] => none
 
+def parseSteps : List String → Option (List (String × Nat × List UInt8))
+  | [] => some []
+  | d :: t :: h :: rest => do
+    let ty ← t.toNat?
+    let p ← unhex h
+    let r ← parseSteps rest
+    if (d == "u" || d == "d") && !p.isEmpty then pure ((d, ty, p) :: r) else none
+  | _ => none
+
+def showList (ms : List (List UInt8)) : String :=
+  if ms.isEmpty then "-" else ",".intercalate (ms.map fun m => s!"{m.length}:{showBytes m}")
+
 def step (_ : Unit) (ts : List String) : Unit × String :=
   let r : String := match ts with
     -- receive everything from a raw stream
@@ -61,6 +73,18 @@ def step (_ : Unit) (ts : List String) : Unit × String :=
     | ["accept", proto, h] => match unhex h with
       | some k => hex (serverResponse k (proto == "1"))
       | none => "bad-op"
+    -- scripted conversation over real handshakes: what the server and the client receive
+    | "tcp" :: st :: _path :: steps => match unhex st, parseSteps steps with
+      | some s, some script =>
+        let up := script.filterMap fun (d, t, p) => if d == "u" then some (t, p) else none
+        let down := script.filterMap fun (d, t, p) => if d == "d" then some (t, p) else none
+        match sendAll true (rngOf s) up [], sendAll false (rngOf s) down [] with
+        | some wu, some wd =>
+          let rs := run { isClient := false, rng := rngOf s, inp := wu }
+          let rc := run { isClient := true, rng := rngOf s, inp := wd }
+          if rs.2.fault || rc.2.fault then "FAULT" else s!"connect=1 s={showList rs.1} c={showList rc.1}"
+        | _, _ => "FAULT"
+      | _, _ => "bad-op"
     | _ => "bad-op"
   ((), r)
 
